@@ -75,11 +75,16 @@ class ProtocolHandler:
         try:
             response, new_session_id = await handler(message, session_id)
         except Exception as e:
-            logging.error(f"Handler error for {method}: {e}")
+            try:
+                detail = str(e)
+            except Exception:
+                # the exception's own __str__ failed: dispatch must still answer
+                detail = type(e).__name__
+            logging.error(f"Handler error for {method}: {detail}")
             if is_notification:
                 return None, None
             return self.create_error_response(
-                msg_id, -32603, f"Internal error: {str(e)}"
+                msg_id, -32603, f"Internal error: {detail}"
             ), None
 
         if is_notification:
